@@ -366,6 +366,68 @@ def explore(col, vol, optset, mmap, depth, method="explicit"):
         sandbox.rm(store)
 
 
+# ---- conformance: in-process main(argv) vs the real console processes -----
+CONF_HISTORIES = [
+    ["gen-info", "gen-scales", "vol2pre", "compute-scales", "scale-stats"],
+    ["gen-info", "gen-scales", "vol2pre", "vol2pre", "compute-scales",
+     "prep-convert", "convert"],
+    ["compute-scales", "gen-info", "gen-scales", "gen-scales"],
+    ["pyramid", "pyramid"],
+]
+
+
+def run_subprocess(script, argv, scratch):
+    import subprocess
+    import sys
+    env = dict(os.environ)
+    env["TMPDIR"] = scratch
+    env["TQDM_DISABLE"] = "1"
+    p = subprocess.run([sys.executable, "-m",
+                        "neuroglancer_scripts.scripts." + script]
+                       + [str(a) for a in argv], capture_output=True,
+                       text=True, timeout=300, env=env)
+    return p.returncode
+
+
+def conformance(col, vol, optset, tier):
+    from mc import runner
+    ws_a = sandbox.fresh_dir("c19a")
+    ws_b = sandbox.fresh_dir("c19b")
+    try:
+        for ws in (ws_a, ws_b):
+            make_volume(os.path.join(ws, "v.nii"), VOLUMES[vol])
+        ca = commands(vol, optset, ws_a, False)
+        cb = commands(vol, optset, ws_b, False)
+        hists = CONF_HISTORIES if tier == "thorough" else CONF_HISTORIES[:2]
+        for hist in hists:
+            if any(h not in ca for h in hist):
+                continue
+            for ws in (ws_a, ws_b):
+                for k in ("main", "allinone", "converted"):
+                    shutil.rmtree(os.path.join(ws, k), ignore_errors=True)
+            for name in hist:
+                ra = apply(ca, name)
+                sa = 0 if ra.ok else (ra.status or 1)
+                script, argv, _ = cb[name]
+                sb = run_subprocess(script, argv, runner.scratch_root())
+                if (sa == 0) != (sb == 0):
+                    raise RuntimeError(
+                        "in-process / subprocess mismatch: %s %s %r step %s:"
+                        " in-process %s, subprocess exit %s"
+                        % (vol, optset, hist, name, ra.brief(), sb))
+            a, b = ws_canon(ws_a), ws_canon(ws_b)
+            if canon_key(a) != canon_key(b):
+                raise RuntimeError(
+                    "in-process / subprocess state mismatch: %s %s %r:\n%r"
+                    "\n%r" % (vol, optset, hist, a, b))
+            col.ev(1, 1, "conformance-ok")
+            col.extra("conformance_replays")
+    finally:
+        sandbox.drop_captured_exit_handlers()
+        sandbox.rm(ws_a)
+        sandbox.rm(ws_b)
+
+
 def units(tier):
     depth = 6 if tier == "quick" else 9
     u = []
@@ -386,6 +448,11 @@ def units(tier):
                         dd = min(dd, 5 if tier == "quick" else 6)
                     u.append({"volume": vol, "options": optset,
                               "mmap": mmap, "method": method, "depth": dd})
+    for vol, optset in (("u8-130x3x2", "default"), ("u8-130x3x2", "sharded"),
+                        ("u16-labels", "flat-nogzip"),
+                        ("u16-aniso", "nogzip")):
+        u.append({"kind": "conformance", "volume": vol, "options": optset,
+                  "tier": tier})
     return u
 
 
@@ -396,6 +463,10 @@ def space(tier):
 
 def run_unit(u):
     col = Collector()
+    if u.get("kind") == "conformance":
+        conformance(col, u["volume"], u["options"], u["tier"])
+        col.sample({"conformance": [u["volume"], u["options"]]})
+        return col.result()
     explore(col, u["volume"], u["options"], u["mmap"], u["depth"],
             u.get("method", "explicit"))
     col.sample({"volume": u["volume"], "options": u["options"],
